@@ -421,6 +421,20 @@ let model_case (toks : string list) : string =
   | "rhist" :: rest ->
     let (inner, h) = parse_rhist rest in
     "outs=" ^ list_str string_of_rout (ApiCheck.api_rhist inner h)
+  | "comp" :: rest ->
+    let (s, _) = parse_src rest in
+    let (((c10, c00), k10), k00) = ApiCheck.api_comp s in
+    Printf.sprintf "src=%s e10=%s e00=%s nk=%d %s %s" (hex_of_text (Tree.source s)) (string_of_events c10) (string_of_events c00)
+      (L.length k10)
+      (S.concat " " (L.mapi (fun i e -> Printf.sprintf "k%d.e10=%s" i (string_of_events e)) k10))
+      (S.concat " " (L.mapi (fun i e -> Printf.sprintf "k%d.e00=%s" i (string_of_events e)) k00))
+  | "wr" :: rest ->
+    let (s, r1) = parse_src rest in
+    (match r1 with
+     | cap :: short :: _ ->
+       let ((buf, w), ok) = ApiCheck.api_writer s (n_of_string cap) (short = "1") in
+       Printf.sprintf "buf=%s written=%s ok=%s" (hex_of_text buf) (hex_of_text w) (b01 ok)
+     | _ -> failwith "wr")
   | ("thist" | "chist") as k :: rest ->
     let (s, r1) = parse_src rest in
     let (ops, _) = parse_hops r1 in
@@ -483,12 +497,37 @@ let check_case (prop : string) (toks : string list) (kvs : (string * string) lis
     let o = { ApiHist.po_eq = (get kvs "eq" = "1"); po_eqr = (get kvs "eqr" = "1");
               po_a = parse_answers kvs "A" final_ops; po_b = parse_answers kvs "B" final_ops } in
     verdict (ApiCheck.api_check_pair (prop_num prop) a opsa b opsb relaxed o)
+  | "comp" :: rest ->
+    let (s, _) = parse_src rest in
+    if has_panic kvs then panic_verdict [s] else
+    let nk = int_of_string (get kvs "nk") in
+    let kid key = L.init nk (fun i -> events_of_string (get kvs (Printf.sprintf "k%d.%s" i key))) in
+    verdict (ApiCheck.api_check_comp s (text_of_hex (get kvs "src")) (events_of_string (get kvs "e10"))
+               (events_of_string (get kvs "e00")) (kid "e10") (kid "e00"))
+  | "wr" :: rest ->
+    let (s, r1) = parse_src rest in
+    if has_panic kvs || L.mem_assoc "PANIC" kvs then panic_verdict [s] else
+    (match r1 with
+     | cap :: short :: _ ->
+       verdict (ApiCheck.api_check_writer s (n_of_string cap) (short = "1") (text_of_hex (get kvs "buf"))
+                  (text_of_hex (get kvs "written")) (get kvs "ok" = "1"))
+     | _ -> failwith "wr")
   | "rhist" :: rest ->
     let (inner, h) = parse_rhist rest in
     verdict (ApiCheck.api_check_rhist inner h (L.map rout_of_string (split_list (get kvs "outs"))))
   | "tree" :: rest ->
     let (s, ws) = parse_tree_case rest in
-    if has_panic kvs then
+    (* only the observers the property talks about *)
+    let relevant = match prop with
+      | "C07" -> ["src"; "buf"; "size"; "rope"; "wr"]
+      | "C01" -> ["src"; "e10"; "e00"; "g10"; "g00"]
+      | "C04" -> ["src"; "m1"; "m0"]
+      | _ -> L.map fst kvs in
+    let kvs_rel = L.filter (fun (k, _) -> L.mem k relevant) kvs in
+    let kvs = if has_panic kvs_rel then kvs else
+        L.map (fun (k, v) -> if S.length v >= 5 && S.sub v 0 5 = "PANIC" then
+                  (k, (match k.[0] with 'e' -> "_" | 'g' -> "1:0" | 'm' -> "-" | _ -> ".")) else (k, v)) kvs in
+    if has_panic kvs_rel then
       (* a panic is a failure unless the case is outside the property's domain *)
       (if int_of_n (ApiCheck.api_check_tree (prop_num prop) s ws (ApiTree.api_tree s ws)) = 100
        then "SKIP" else panic_verdict [s])
